@@ -6,7 +6,9 @@ use crate::program::{self, build_verifier, finish_ctx, take_ctx, Dev, Env, Progr
 use crate::proofparts::Parts;
 use crate::props::common::*;
 use crate::recorder::{record_guarded, scalar_from_challenge};
+use crate::refprover::{ref_prove, run_devs, Labels, RunDev};
 use crate::refverify::{refverify, static_part, Challenges, RefVerdict};
+use crate::schedule::{expected_steps_ordered, run_monitor};
 use crate::schedule::main_events;
 use crate::with_curve;
 use ark_bulletproofs::r1cs::R1CSProof;
@@ -87,6 +89,39 @@ pub fn judge<G: Cv>(env: &Env<G>, prog: &Program, comms: &[G], parts: &Parts<G>,
     }
 }
 
+/// Learn the labels and domain-separator payloads from two recorded honest runs of the real prover.
+pub fn learn_labels<G: Cv>(env: &Env<G>, seed: u64) -> Result<Labels, String> {
+    let mut keep = vec![];
+    for s in ["T C M Kg M Kd", "C R[Z M Kg M Kd]"] {
+        let prog = Program::parse(s).unwrap();
+        let (res, ev) = record_guarded(|| {
+            let t = Transcript::new(program::LABEL);
+            let (prover, ctx, comms) = crate::program::build_prover::<G, Transcript>(&prog, &env.pc, t, seed, Dev::None);
+            let mut rng = crate::alphabet::chacha(seed, "c03-learn");
+            let r = prover.prove(&mut rng, &env.bp).map(|p| p.to_bytes().unwrap());
+            let order = take_ctx(ctx).closure_order;
+            (r, comms, order)
+        });
+        let (bytes, comms, order) = match res {
+            Ok((Ok(b), c, o)) => (b, c, o),
+            _ => return Err(format!("honest run of {} failed", s)),
+        };
+        let parts = Parts::<G>::parse(&bytes).unwrap();
+        let steps = expected_steps_ordered::<G>(&prog, &comms, &parts, &order);
+        let (_, mev) = main_events(&ev);
+        match run_monitor(&steps, &mev) {
+            Ok(m) => keep.push((m, mev)),
+            Err(e) => return Err(format!("the honest run of {} does not have the protocol's structure: {} (C06 reports this)", s, e)),
+        }
+    }
+    let refs: Vec<(&crate::schedule::Matched, &[crate::schedule::MainEvent])> = keep.iter().map(|(m, e)| (m, &e[..])).collect();
+    let l = Labels::learn(&refs);
+    if !l.complete() {
+        return Err("label table incomplete".into());
+    }
+    Ok(l)
+}
+
 pub fn make_bases<G: Cv>(env: &Env<G>, progs: &[&Program], seed: u64) -> Vec<Base<G>> {
     let mut out = vec![];
     for p in progs {
@@ -110,6 +145,10 @@ pub enum DevSel {
     None,
     One(PDev),
     Two(PDev, PDev),
+    /// the reference prover's honest proof (conformance of the reference prover itself)
+    RefHonest,
+    /// one deviation during the reference prover's run
+    Run(RunDev),
 }
 impl DevSel {
     pub fn name(&self) -> String {
@@ -117,6 +156,8 @@ impl DevSel {
             DevSel::None => "none".into(),
             DevSel::One(d) => d.name(),
             DevSel::Two(a, b) => format!("{} ; {}", a.name(), b.name()),
+            DevSel::RefHonest => "reference prover, no deviation".into(),
+            DevSel::Run(d) => d.name(),
         }
     }
 }
@@ -137,7 +178,8 @@ fn curve_work<G: Cv>(progs: &[&Program], o: &Opts, start: std::time::Instant, re
         for d in &ss {
             tasks.push((*bi, DevSel::One(d.clone())));
         }
-        if rank < n_depth2 || (rank >= 2 && rank < 2 + n_depth2 && b.parts.l.len() == 0) {
+        let depth2_here = if o.tier == Tier::Quick { rank == 0 && G::NAME == crate::curves::CURVES[(o.seed % 3) as usize] } else { rank < n_depth2 || (rank >= 2 && rank < 2 + n_depth2 && b.parts.l.len() == 0) };
+        if depth2_here {
             let s1 = singles::<G>(&b.parts, false);
             for (i, d1) in s1.iter().enumerate() {
                 for d2 in s1.iter().skip(i + 1) {
@@ -147,12 +189,48 @@ fn curve_work<G: Cv>(progs: &[&Program], o: &Opts, start: std::time::Instant, re
             }
         }
     }
+    // protocol-run deviations through the reference prover (honest bases only)
+    let labels = match learn_labels::<G>(&env, o.seed) {
+        Ok(l) => Some(l),
+        Err(e) => {
+            println!("C03 note ({}): protocol-run deviations skipped, the reference prover cannot learn the label table: {}", G::NAME, e);
+            None
+        }
+    };
+    for (bi, b) in bases.iter().enumerate() {
+        if b.kind != "honest" || labels.is_none() {
+            continue;
+        }
+        tasks.push((bi, DevSel::RefHonest));
+        for d in run_devs(b.parts.l.len()) {
+            tasks.push((bi, DevSel::Run(d)));
+        }
+    }
     if let Some(r) = replay {
         tasks.retain(|(bi, d)| Some(bases[*bi].name.as_str()) == r["case"]["base"].as_str() && Some(d.name().as_str()) == r["case"]["deviation"].as_str());
     }
     let res = par_run(&tasks, start, o.budget, |_, (bi, d)| {
         let b = &bases[*bi];
+        if let DevSel::RefHonest | DevSel::Run(_) = d {
+            let rd = match d {
+                DevSel::Run(x) => Some(x.clone()),
+                _ => None,
+            };
+            let rp = match crate::evidence::guarded(|| ref_prove::<G>(&env, labels.as_ref().unwrap(), &b.prog, o.seed, "c03-ref", rd)) {
+                Ok(Ok(p)) => p,
+                Ok(Err(e)) => return Out::Bad { expected: "reference prover runs".into(), observed: e },
+                Err(m) => return Out::Bad { expected: "reference prover runs".into(), observed: format!("panicked: {}", m) },
+            };
+            let out = judge::<G>(&env, &b.prog, &rp.comms, &rp.parts, o.seed);
+            if matches!(d, DevSel::RefHonest) {
+                if let Out::Agree { accept: false, why } = &out {
+                    return Out::Bad { expected: "the reference prover's honest proof is accepted by the real verifier and by the separate relations".into(), observed: format!("both reject ({})", why) };
+                }
+            }
+            return out;
+        }
         let parts = match d {
+            DevSel::RefHonest | DevSel::Run(_) => unreachable!(),
             DevSel::None => b.parts.clone(),
             DevSel::One(d) => apply::<G>(&b.parts, d, &env.pc, o.seed),
             DevSel::Two(d1, d2) => {
@@ -181,14 +259,15 @@ pub fn main(o: &Opts) -> i32 {
     let mut rep = Report::new("C03", o.tier.name(), o.seed, "exploration");
     let replay: Option<Value> = o.replay.as_ref().map(|p| serde_json::from_str(&std::fs::read_to_string(p).unwrap()).unwrap());
     let mut progs: Vec<Program> = match o.tier {
-        Tier::Quick => program_space2(1, 1, 0),
+        Tier::Quick => program_space2(1, 1, 0).into_iter().enumerate().filter(|(i, _)| i % 3 == 0).map(|(_, p)| p).collect(),
         Tier::Thorough => program_space2(2, 1, 0),
     };
     progs.extend(size_family(if o.tier == Tier::Quick { 2 } else { 4 }).into_iter().map(|x| x.3));
     progs.push(Program::parse("C C M Kd R[Z M Kc T] R[Z A Kd]").unwrap());
-    rep.bounds = json!({"base_programs": progs.len(), "space": if o.tier == Tier::Quick { "P(1,1) + S(2) (+ bad-witness variants)" } else { "P(2,1) + S(4) (+ bad-witness variants)" },
+    rep.bounds = json!({"base_programs": progs.len(), "space": if o.tier == Tier::Quick { "every third program of P(1,1) + S(2) (+ bad-witness variants)" } else { "P(2,1) + S(4) (+ bad-witness variants)" },
         "depth1": "every element of the algebraic deviation alphabet keeping |L|=|R| (identity, negation, +B, +B_blinding, (+T8, T8), scalar 0/neg/+delta, round edits); same-type copies and swaps on the smallest bases",
-        "depth2": "all unordered pairs of depth-1 deviations on the smallest bases"});
+        "depth2": "all unordered pairs of depth-1 deviations on the smallest bases",
+        "run_deviations": "for every honest base: the reference prover's own honest proof, and every single replacement of one message at the moment it is produced (each point slot: +B, +B_blinding, +G[0], negated, identity; each scalar slot: +1, 0), the rest of the run computed honestly"});
     rep.curves = CURVES.iter().map(|s| s.to_string()).collect();
     rep.rule = "for every base proof (honest and honest-from-bad-witness) and every deviation, the real verdict is compared with an independent verifier that evaluates (a) non-identity, (b) the committed evaluation relation and (c) the inner-product relation with explicit folding, under the challenges recorded from the real run; non-trivial = cases where the reference evaluated (b) and (c)".into();
     let start = rep.start;
@@ -214,7 +293,8 @@ pub fn main(o: &Opts) -> i32 {
                     if evaluated {
                         rep.nontrivial += 1;
                     }
-                    let depth = if dname == "none" { 0 } else if dname.contains(" ; ") { 2 } else { 1 };
+                    let depth = if dname == "none" || dname.starts_with("reference prover") { 0 } else if dname.contains(" ; ") { 2 } else { 1 };
+                    let kind = if dname.starts_with("during the run") { "run-deviation" } else if dname.starts_with("reference prover") { "reference-prover" } else { kind };
                     rep.count(&format!("{}/depth{}/{}", kind, depth, if accept { "accept".to_string() } else if evaluated { format!("reject {}", why) } else { format!("reject early: {}", why.split(' ').next().unwrap_or("")) }), 1);
                 }
                 Some(Out::Bad { expected, observed }) => {
